@@ -274,3 +274,32 @@ Proof.
     subst P. apply cdm_par_table_ok; try assumption. apply Ht; exact Hin.
   - rewrite map_length. exact HL.
 Qed.
+
+(* ------------------------------------------------------------------------------------------ QE map *)
+
+Lemma qe_in_range_iff : forall q, qe_in_range q = true <-> 0 <= q <= 1.
+Proof. intros q. unfold qe_in_range. rewrite andb_true_iff, !Qle_bool_iff. tauto. Qed.
+
+(* an accepted map converts every pixel with its own efficiency: between zero and the photons of that pixel *)
+Lemma qe_map_bounds : forall qs photon out, length qs = length photon -> nonneg photon ->
+  qe_map_model qs photon = Some out ->
+  Forall (fun q => 0 <= q <= 1) qs
+  /\ Forall2 (fun qp o => o == fst qp * snd qp /\ 0 <= o <= snd qp) (combine qs photon) out.
+Proof.
+  intros qs photon out HL Hp H. unfold qe_map_model in H.
+  destruct (forallb qe_in_range qs) eqn:R; [|discriminate]. injection H as H. subst out.
+  assert (RQ : Forall (fun q => 0 <= q <= 1) qs).
+  { rewrite forallb_forall in R. apply Forall_forall. intros q Hq. apply qe_in_range_iff. apply R; exact Hq. }
+  split; [exact RQ|]. clear R. revert photon HL Hp.
+  induction RQ as [|q qs Hq RQ IH]; intros [|p photon] HL Hp; simpl in *; try discriminate; constructor.
+  - inversion Hp; subst. simpl. split; [apply qe_off_exact | apply qe_off_bounds; assumption].
+  - inversion Hp; subst. apply IH; [congruence | assumption].
+Qed.
+
+Lemma qe_map_refused : forall qs photon, qe_map_model qs photon = None <-> ~ Forall (fun q => 0 <= q <= 1) qs.
+Proof.
+  intros qs photon. unfold qe_map_model. destruct (forallb qe_in_range qs) eqn:R; split; intros H; try discriminate; try reflexivity.
+  - exfalso. apply H. rewrite forallb_forall in R. apply Forall_forall. intros q Hq. apply qe_in_range_iff. apply R; exact Hq.
+  - intros F. assert (forallb qe_in_range qs = true); [|congruence].
+    apply forallb_forall. intros q Hq. apply qe_in_range_iff. rewrite Forall_forall in F. apply F; exact Hq.
+Qed.
